@@ -89,7 +89,11 @@ func (a *absCtx) fsOf(d *RawDir, roles map[string]InitFile) []any {
 	}
 	for _, f := range d.Files {
 		p := a.path(d.Dir + "/" + f.P)
-		rec := map[string]any{"p": p, "touched": f.Touched, "role": "", "owner": ""}
+		dir, base := p, ""
+		if i := strings.LastIndex(p, "/"); i >= 0 {
+			dir, base = p[:i], p[i+1:]
+		}
+		rec := map[string]any{"p": p, "dir": dir, "base": base, "touched": f.Touched, "role": "", "owner": ""}
 		if f.IsDir {
 			rec["kind"] = "dir"
 			rec["lines"] = []string{}
@@ -485,7 +489,8 @@ func abstractRun(a *absCtx, r *ScenarioRun, drvDir string) ([]map[string]any, er
 				if x == nil {
 					x = &Expect{}
 				}
-				rec["invalid"] = x.Invalid
+				rec["invalid"] = x.Invalid || x.Unwritable
+				rec["unwritable"] = x.Unwritable
 				mf := []any{}
 				for _, m := range x.MFail {
 					mf = append(mf, []string{m[0], m[1]})
